@@ -62,6 +62,11 @@ func putUvarint(b *[]byte, x uint64) int {
 	return n + 1
 }
 
+// unknownTags > 0: every tag buffer additionally carries that many tagged fields
+// the decoder does not know (ids 900, 901, ... with small payloads), placed after
+// the known ones.
+var unknownTags int
+
 func refEncode(t *schemawalk.Ty, v reflect.Value, flex bool, b *[]byte, lens *[]lenField) {
 	lenPrefix := func(n int, null bool, what string) {
 		if flex {
@@ -126,7 +131,7 @@ func refEncode(t *schemawalk.Ty, v reflect.Value, flex bool, b *[]byte, lens *[]
 				}
 			}
 			off := len(*b)
-			w := putUvarint(b, uint64(cnt))
+			w := putUvarint(b, uint64(cnt+unknownTags))
 			*lens = append(*lens, lenField{off, "uv", w, "tagcount"})
 			for _, f := range t.Tagged {
 				if f.Ty.Kind == "marker" {
@@ -145,6 +150,12 @@ func refEncode(t *schemawalk.Ty, v reflect.Value, flex bool, b *[]byte, lens *[]
 					*lens = append(*lens, l)
 				}
 				*b = append(*b, sub...)
+			}
+			for u := 0; u < unknownTags; u++ {
+				putUvarint(b, uint64(900+u))
+				payload := bytes.Repeat([]byte{0xab}, u*3)
+				putUvarint(b, uint64(len(payload)))
+				*b = append(*b, payload...)
 			}
 		}
 	case "marker":
@@ -330,6 +341,22 @@ func main() {
 			if !bytes.Equal(body, frame[hdr:]) {
 				emit("refenc", args, "REF-ENCODER-DISAGREES "+hex.EncodeToString(body), "refenc")
 				continue
+			}
+			// unknown tagged fields (flexible versions): the same value must come back
+			if s.Flexible && c == 0 {
+				unknownTags = 2
+				var ub []byte
+				var ul []lenField
+				refEncode(s.Ty, msg.Elem(), s.Flexible, &ub, &ul)
+				unknownTags = 0
+				// header tag buffer with two unknown entries as well
+				hb := []byte{2, 0x84, 0x07, 1, 0xcd, 0x85, 0x07, 0}
+				f := make([]byte, 4)
+				f = binary.BigEndian.AppendUint32(f, uint32(corr))
+				f = append(f, hb...)
+				f = append(f, ub...)
+				binary.BigEndian.PutUint32(f[0:4], uint32(len(f)-4))
+				emit("dec", fmt.Sprintf("%d %s", idx, kvfmt.Bytes(f)), "", "unknown-tags")
 			}
 			// C17: truncation at byte k
 			ks := []int{}
